@@ -25,6 +25,29 @@ def main():
         out = getattr(m, job["name"])(job["tier"], job["seed"])
     except Exception as e:
         out = {"error": f"{type(e).__name__}: {e}", "trace": traceback.format_exc()[-1500:]}
+        # an exception that escaped the stand-in but was RAISED INSIDE the library under test (innermost python frame in the uxarray
+        # package, reached through a stand-in frame) is a failure of the library on an input the stand-in built - reported as such, with
+        # a key naming the exception type and the library function; anything raised in the stand-in's own code stays a checker error
+        try:
+            import uxarray
+            pkg = os.path.dirname(os.path.abspath(uxarray.__file__))
+            frames = traceback.extract_tb(e.__traceback__)
+            lib = [fr for fr in frames if os.path.abspath(fr.filename).startswith(pkg)]
+            own = [fr for fr in frames if os.path.abspath(fr.filename).startswith(os.path.join(HERE, "standins"))]
+            last_py = frames[-1]
+            inner_is_lib = bool(lib) and (os.path.abspath(last_py.filename).startswith(pkg) or "site-packages" in last_py.filename)
+            if inner_is_lib and own and not isinstance(e, (ImportError, AttributeError, NameError)):
+                fn = lib[-1].name
+                out = {"cases": 1, "distinct": 1, "bound": "stand-in aborted by an exception raised inside the library (reported as the failure)",
+                       "samples": [],
+                       "failures": [{"key": f"uncaught_library_exception:{type(e).__name__}:{fn}",
+                                     "what": f"uxarray raised {type(e).__name__}: {str(e)[:200]} in {fn} ({os.path.relpath(lib[-1].filename, pkg)}:{lib[-1].lineno}) "
+                                             f"on an input built by the stand-in at {os.path.basename(own[-1].filename)}:{own[-1].lineno}",
+                                     "violated": "the operation yields a result on inputs inside the property's quantifier",
+                                     "inputs": {"standin_line": f"{os.path.basename(own[-1].filename)}:{own[-1].lineno}"},
+                                     "observed": f"{type(e).__name__}", "expected": "a result"}]}
+        except Exception:  # noqa: BLE001
+            pass
     print(json.dumps(out, default=str))
 
 
